@@ -60,7 +60,8 @@ ASSUMPTIONS = [
     "create_adjacency_matrix) cannot be counted with sys.monitoring; calls are counted with ctx.op at the call site; "
     "the pure-Python helpers it calls (atoms.coord, box.move_inside_box, box.repeat_box_coord) are reach-counted",
     "reference = float64 brute force on the values handed to biotite; a membership whose float64 distance is within "
-    "4*eps32*(|p|+|q|+r) of the radius is undecided (accepted either way, counted); distance exactly 0 is decided IN",
+    "4*eps32*(|p|+|q|+r) + 2*sqrt(tiny32) of the radius is undecided (accepted either way, counted; the absolute term is the "
+    "underflow threshold of a squared float32 distance, 2.2e-19); distance exactly 0 is decided IN",
     "get_atoms_in_cells: 'corresponding distance' = cell_radius*cell_size (Euclidean); the band additionally "
     "contains the largest atom norm because the cell origin enters the index arithmetic; only the superset "
     "direction is judged (plus: indices valid, inside the selection, nothing for non-finite queries)",
@@ -264,6 +265,8 @@ def battery(ctx, rng, cl, w, Qin, r_scalar, r_arr, rc_cap):
 
     # 1. scalar radius, padded index array
     Rs = np.full(m, float(r_scalar))
+    ratio = float(r_scalar) / w.cs
+    ctx.note("radius_over_cell_size:" + ("0" if ratio == 0 else "<=1" if ratio <= 1 else "<=5" if ratio <= 5 else "<=20" if ratio <= 20 else "<=60"))
     exp = w.expect(Q, Rs, dist=dist)
     res = _call(ctx, "get_atoms", cl.get_atoms, Qin, r_scalar)
     gi = to_mask(ctx, res, False, m, n, False, w.periodic)
@@ -1133,6 +1136,8 @@ def selftest(ctx):
     assert e["IN"].tolist() == [[True, False, False, False]] and e["OUT"].tolist() == [[False, False, True, True]]
     e = w.expect(np.zeros((1, 3)), np.array([0.0]))            # radius 0 finds the identical point
     assert e["IN"].tolist() == [[True, False, False, False]] and e["OUT"].tolist() == [[False, True, True, True]]
+    e = w.expect(np.array([[1.4e-45, 1.4e-45, 0]]), np.array([0.0]))   # below the float32 underflow threshold: undecided
+    assert e["IN"].tolist() == [[False] * 4] and e["OUT"].tolist() == [[False, True, True, True]]
     e = World(P, 1.0, sel=np.array([True, False, True, True])).expect(np.zeros((1, 3)), np.array([1.5]))
     assert e["IN"].tolist() == [[True, False, False, False]] and e["OUT"].tolist() == [[False, True, True, True]]
     e = w.expect(np.array([[np.nan, 0, 0], [0, np.inf, 0]]), np.array([10.0, 10.0]))
